@@ -19,8 +19,8 @@ ASSUMPTIONS = [
     "the GLR driver is not modelled: GLR probe results are compared impl-after-history vs impl-on-fresh-objects only "
     "(property oracle), the model covers the attribute protocol of GLRParser.parse",
     "interrupted constructions are produced with the state-budget hook PARGLARE_VERIF_MAX_STATES (an exception raised "
-    "inside create_table between swap and restore, like KeyboardInterrupt/timeouts); they are excluded from "
-    "C15_history and covered by C15_interrupted_build_refuted / known finding KF-C15-interrupted-build-not-restored",
+    "inside _create_table between swap and restore, like KeyboardInterrupt/timeouts); since the fix (try/finally in "
+    "create_table) they are ordinary history steps: C15_history covers them and the impl must behave like fresh objects",
     "recognizers are an oracle: the match matrix is computed with the impl's own recognizer objects",
 ]
 
@@ -28,7 +28,6 @@ FUEL = 4000
 FF_FUEL = 200
 BUDGET = 300            # state budget of every construction that is not meant to be interrupted
 PARSE_LIMIT = 2
-KF_ID = "KF-C15-interrupted-build-not-restored"
 
 LAYOUTS = [
     None,
@@ -696,16 +695,9 @@ def compare(ctx, r, cases, meta, outs, st):
                     ctx.violation("transient attributes after GLRParser.parse: impl %r, model %r"
                                   % (e["fields"], mo[1]), rep, no_input=True, key="glr-fields")
     # ---- property oracle: everything observed after the history equals the fresh world
-    kf = []
-
     def prop_fail(what, rep, key, build_related):
-        """a failure of the property text; an instance of the known finding only if it concerns an SLR
-        construction after an interrupted construction left productions[0].rhs rewritten, and the
-        faithful model predicted exactly what the impl did"""
-        if build_related and interrupted_steps and corrupted and model_gm is not None and not gm_bad:
-            kf.append(what)
-        else:
-            ctx.violation(what, rep, key=key)
+        """a failure of the property text (no known finding is listed for C15: every one is a violation)"""
+        ctx.violation(what, rep, key=key)
 
     for e in r["lr_seq"]:
         if "fresh" in e:
@@ -743,25 +735,22 @@ def compare(ctx, r, cases, meta, outs, st):
     if r["probe"]["reload"] is not True:
         ctx.violation("the grammar text no longer loads to the same Grammar after the history (%r)"
                       % (r["probe"]["reload"],), rep0, key="prop-reload")
-    if not interrupted_steps and r["final_gstate"][0] != r["aug0"]:
-        ctx.violation("productions[0].rhs is not restored although no construction was interrupted: %r"
-                      % (r["final_gstate"][0],), rep0, key="prop-aug")
+    if r["final_gstate"][0] != r["aug0"]:
+        ctx.violation("productions[0].rhs is not what it is on a freshly loaded Grammar after the history%s: %r"
+                      % (" (a construction was interrupted)" if interrupted_steps else "",
+                         r["final_gstate"][0]), rep0, key="prop-aug")
     if interrupted_steps:
         st["histories_with_interrupt"] += 1
     if corrupted:
         st["histories_with_rewritten_aug"] += 1
-    if kf:
-        st["kf_instances"] += 1
-        ctx.known_finding(KF_ID, "a construction interrupted between swap and restore in create_table leaves "
-                                 "productions[0].rhs rewritten; a later SLR construction on the same Grammar "
-                                 "differs from the one on a fresh Grammar (e.g. %s)" % kf[0][:90])
 
 
 def kf_witness(ctx):
-    """replay the curated witness of the known finding on /repo"""
+    """the witness of the fixed finding (an interrupted LAYOUT-table construction followed by an SLR
+    construction) is run on every check: it must now behave like fresh objects"""
     gtext = CURATED[1][1] + "\n" + LAYOUTS[1]
     job = ("kf-witness", gtext, {"lr": (0, 0, 1, 1), "glr": (1, 0, 0, 0), "recovery": False},
-           [("build", (0, 0, 1, 1), 1)], {"inputs": ["a b # x\n", "a  a"], "builds": [(0, 1, 1, 1)]})
+           [("build", (0, 0, 1, 1), 1)], {"inputs": ["a b a", "a  a"], "builds": [(0, 1, 1, 1), (0, 1, 0, 0)]})
     return _worker(job)
 
 
@@ -773,7 +762,7 @@ def run(ctx):
     st = {"worlds": 0, "grammar_errors": {}, "ff_compared": 0, "build_steps": 0, "build_outcomes": {},
           "lr_parses": 0, "lr_kinds": {}, "lr_recovered": 0, "glr_parses": 0, "glr_kinds": {}, "probes": 0,
           "probe_builds": 0, "histories_with_interrupt": 0, "histories_with_rewritten_aug": 0,
-          "kf_instances": 0, "with_layout": 0, "lr_nonterminating": 0, "history_lengths": {}, "nontrivial": set(),
+          "with_layout": 0, "lr_nonterminating": 0, "history_lengths": {}, "nontrivial": set(),
           "lr_subject": {}, "glr_subject": {}}
     allcases, spans = [], []
     for r in results:
@@ -803,8 +792,6 @@ def run(ctx):
             continue
         a, n, meta = sp
         compare(ctx, r, allcases[a:a + n], meta, outs[a:a + n], st)
-    if st["kf_instances"] == 0:
-        ctx.notes.append("known finding %s not reproduced in this run (fixed or not generated)" % KF_ID)
     samples = []
     for r in results:
         if not r["gerr"] and len(samples) < 3 and len(r["history"]) >= 3:
@@ -820,7 +807,7 @@ def run(ctx):
                 "2..%d steps over {LR/GLR parse of a sentence, corrupted sentence, short string (layout injected); "
                 "parse with a raising action / token callback; construction of another Parser/GLRParser (16 option "
                 "sets, may fail with conflicts or GrammarError); construction interrupted in the LAYOUT or main "
-                "automaton; failing load of another grammar}, then probe parses on both subjects and 3 new "
+                "automaton (state budget); failing load of another grammar}, then probe parses on both subjects and 3 new "
                 "constructions, all compared with a world of fresh objects; non-trivial = accepted probe parse, "
                 "distinct by (grammar, history, input)" % (6 if ctx.quick() else 10),
         "samples": samples,
